@@ -265,6 +265,31 @@ var validColumnTypes = map[string]bool{
 // columnTypePattern matches valid column type definitions
 var columnTypePattern = regexp.MustCompile(`^[A-Za-z][A-Za-z0-9_ (),.]*$`)
 
+// columnTypeStaysInDefinition reports whether a column type keeps within its
+// own column definition: parentheses balance and never close more than they
+// open, and a comma appears only inside parentheses (as in DECIMAL(10, 2)).
+// Without this, "INT, extra INT" adds a second definition to CREATE TABLE and
+// "INT) INHERITS (other" closes the column list.
+func columnTypeStaysInDefinition(colType string) bool {
+	depth := 0
+	for _, c := range colType {
+		switch c {
+		case '(':
+			depth++
+		case ')':
+			depth--
+			if depth < 0 {
+				return false
+			}
+		case ',':
+			if depth == 0 {
+				return false
+			}
+		}
+	}
+	return depth == 0
+}
+
 // sanitizeColumnType validates a column type definition
 func sanitizeColumnType(colType string) (string, error) {
 	if colType == "" {
@@ -275,7 +300,7 @@ func sanitizeColumnType(colType string) (string, error) {
 	upperType := strings.ToUpper(strings.TrimSpace(colType))
 
 	// Check against pattern to prevent injection
-	if !columnTypePattern.MatchString(colType) {
+	if !columnTypePattern.MatchString(colType) || !columnTypeStaysInDefinition(colType) {
 		return "", fmt.Errorf("invalid column type: %s", colType)
 	}
 
